@@ -497,6 +497,46 @@ func GenC13x(rng *rand.Rand, thorough bool, emit func(*Sx)) {
 			emit(RunConv(f.caseOf("C13", segStream(rng, f.out, f.cuts, 0, rawEOF))))
 		}
 	}
+	// (a3) a recipient refused for the recipient limit is not a recipient of the transaction
+	for _, sess := range []bool{true, false} {
+		for _, bdat := range []bool{true, false} {
+			cfg := DefaultCfg()
+			cfg.LMTP, cfg.LMTPSession = true, sess
+			cfg.MaxRcpt = 2
+			f := newF(cfg)
+			f.hello()
+			f.cmd("MAIL FROM:<s@ok>", 250)
+			f.cmd("RCPT TO:<a@ok>", 250)
+			f.cmd("RCPT TO:<b@ok>", 250)
+			f.cmd("RCPT TO:<over@ok>", 452)
+			p := DefaultPlan()
+			if sess {
+				p.Status = []StatusCall{{Addr: "b@ok", Err: rejectErr()}}
+			}
+			f.script.Data = []DataPlan{p}
+			f.add(L(A("must-not-mail"), XS("over@ok")))
+			if bdat {
+				if sess {
+					f.expect(250, 550)
+				} else {
+					f.expect(250, 250)
+				}
+				f.cmd("BDAT 3 LAST")
+				f.cut()
+				f.raw("abc")
+			} else {
+				f.cmd("DATA", 354)
+				f.raw("abc\r\n.\r\n")
+				if sess {
+					f.expect(250, 550)
+				} else {
+					f.expect(250, 250)
+				}
+			}
+			f.cmd("QUIT", 221)
+			emit(RunConv(f.caseOf("C13", segStream(rng, f.out, f.cuts, 0, rawEOF))))
+		}
+	}
 	// (b) a transaction refused for its size must not leave anything behind for the next one
 	for _, sess := range []bool{true, false} {
 		for _, firstLast := range []string{"", " LAST"} {
@@ -939,6 +979,57 @@ func GenC08(rng *rand.Rand, thorough bool, emit func(*Sx)) {
 					g.known = false
 					emit(RunConv(g.caseOf("C08", segStream(rng, f.out[:k], nil, (k+ti)%3, term))))
 				}
+			}
+		}
+	}
+	// a backend callback other than Data panics: the server gives up on the connection (421), logs the
+	// session out exactly once, closes, and executes nothing that is buffered behind
+	for _, lmtp := range []bool{false, true} {
+		for _, where := range []string{"mail", "rcpt", "reset-rset", "reset-ehlo", "reset-data", "reset-bdat"} {
+			for si, suf := range []string{"", "EHLO after.close\r\nMAIL FROM:<late@x>\r\n", "NOOP\r\nQUIT\r\n"} {
+				cfg := DefaultCfg()
+				cfg.LMTP = lmtp
+				f := newF(cfg)
+				f.hello()
+				pa := map[string]int{}
+				switch where {
+				case "mail":
+					pa["mail"] = 1
+					f.cmd("MAIL FROM:<s@ok>", 421)
+				case "rcpt":
+					pa["rcpt"] = 1
+					f.cmd("MAIL FROM:<s@ok>", 250)
+					f.cmd("RCPT TO:<r@ok>", 421)
+				case "reset-rset":
+					pa["reset"] = 1
+					f.cmd("MAIL FROM:<s@ok>", 250)
+					f.cmd("RSET", 421)
+				case "reset-ehlo":
+					pa["reset"] = 1
+					f.hello()
+					f.codes[len(f.codes)-1] = 421
+				case "reset-data":
+					pa["reset"] = 1
+					f.cmd("MAIL FROM:<s@ok>", 250)
+					f.cmd("RCPT TO:<r@ok>", 250)
+					f.cmd("DATA", 354)
+					f.raw("hello\r\n.\r\n")
+					f.expect(250, 421)
+				case "reset-bdat":
+					pa["reset"] = 1
+					f.cmd("MAIL FROM:<s@ok>", 250)
+					f.cmd("RCPT TO:<r@ok>", 250)
+					f.cmd("BDAT 3 LAST", 250, 421)
+					f.raw("abc")
+				}
+				f.raw(suf)
+				f.add(L(A("nomodel")))
+				f.add(L(A("must-not-mail"), XS("late@x")))
+				f.add(L(A("expect-last"), Num(421)))
+				f.add(L(A("one-logout")))
+				cc := f.caseOf("C08", segStream(rng, f.out, f.cuts, si%3, rawEOF))
+				cc.PanicAt = pa
+				emit(RunConv(cc))
 			}
 		}
 	}
